@@ -111,6 +111,7 @@ class Run(object):
         self.round = 0                # scheduler flush rounds begun
         self.in_sched_flush = []      # stack of batch ids between Before and After
         self.uid = 0
+        self.leafobjs = []
         self.debug_bids = {}          # id(DebugBatch) -> batch id
         self.last_struct = {}         # t -> [(fid, obj)]
         self.svars = [None] + [_sv.AsyncScopedValue(0) for _ in range(prog.get("nvars", 0))]
@@ -299,18 +300,26 @@ class Run(object):
             return dict(("k%d" % (i + 1), o) for i, o in enumerate(objs)), V("Dct", 0, res)
         pos[0] += 1
         p = pos[0]
+        if g == "Rep":
+            pair = self.leafobjs[s["n"] - 1]         # the very same object as leaf n of this structure
+            self.leafobjs.append(pair)
+            return pair
         if g == "N":
+            self.leafobjs.append((None, V("N")))
             return None, V("N")
         if g == "Bad":
+            self.leafobjs.append((7, V("Bad")))
             return 7, V("Bad")
         if g == "T":
             u = s["n"]
             obj = self.get_task(u, t)
             self.last_struct[t].append((u, obj))
+            self.leafobjs.append((obj, V("F", u)))
             return obj, V("F", u)
         if g == "D":
             obj, w = self.dedup_call(t, s["n"])
             self.last_struct[t].append((w, obj))
+            self.leafobjs.append((obj, V("F", w)))
             return obj, V("F", w)
         fid = fid_of(t, k, p)
         if g == "I":
@@ -338,6 +347,7 @@ class Run(object):
         self.obj_id[id(obj)] = fid
         self.keep.append(obj)
         self.last_struct[t].append((fid, obj))
+        self.leafobjs.append((obj, V("F", fid)))
         return obj, V("F", fid)
 
     def _provide(self, fid, ok):
@@ -457,6 +467,7 @@ class Run(object):
             if t not in run.task_obj and me is not None:
                 run.register_task(t, me, 0)      # created by a plain synchronous call fn()
             recvs = []
+            yielded = {}
             open_ctx = []
             recv = None
             ru = 0
@@ -523,8 +534,13 @@ class Run(object):
                     term = seg["term"]
                     tk = term["k"]
                     if tk == "yield":
-                        run.last_struct[t] = []
-                        obj, res = run.build(t, k, term["s"], [0])
+                        if term.get("reuse"):
+                            obj, res, run.last_struct[t] = yielded[term["reuse"]]      # the very same object again
+                        else:
+                            run.last_struct[t] = []
+                            run.leafobjs = []
+                            obj, res = run.build(t, k, term["s"], [0])
+                            yielded[k] = (obj, res, list(run.last_struct[t]))
                         run.emit("SegEnd", t=t, k=k, b=1, s=res, a=run.active_id())
                         try:
                             got = yield obj
